@@ -313,11 +313,12 @@ def run_group(g, wd):
         for p in props:
             cls, _, _ = classify(p.get("description", ""), p["name"], p.get("sourceLocation", {}).get("file", ""), g)
             (pnames if cls in ("P", "R") else anames).append(p["name"])
-        jobs = [[n] for n in pnames] + [anames[i:i + 60] for i in range(0, len(anames), 60)]
+        k = g.slice if isinstance(g.slice, int) and not isinstance(g.slice, bool) else 1
+        jobs = [pnames[i:i + k] for i in range(0, len(pnames), k)] + [anames[i:i + 60] for i in range(0, len(anames), 60)]
         runs = []
 
         def one(names):
-            cmd = ["cbmc", gb] + flags
+            cmd = ["cbmc", gb] + flags + ["--slice-formula"]
             for n in names:
                 cmd += ["--property", n]
             rc, out, err, dt = run(cmd, g.timeout, log=log)
